@@ -33,6 +33,10 @@ impl FsWorld {
     pub open spec fn is_there(&self, p: Seq<char>) -> bool { self.exists.contains_key(p) && self.exists[p] }
     pub open spec fn same_state(&self, o: &FsWorld) -> bool { self.exists == o.exists && self.content == o.content && self.no_faults == o.no_faults && self.dirs == o.dirs }
 }
+/// R-generic: every path-like argument (`AsRef<Path>` / `NixPath`) is viewed as its characters
+pub trait PathLike { spec fn pview(&self) -> Seq<char>; }
+impl PathLike for PathBuf { open spec fn pview(&self) -> Seq<char> { self@ } }
+impl PathLike for RedoPathBuf { open spec fn pview(&self) -> Seq<char> { self@ } }
 #[verifier::external_body]
 pub struct Metadata { _p: () }
 #[verifier::external_body]
@@ -78,12 +82,12 @@ impl FsFile {
     { unimplemented!() }
     /// File::create(name): creates or truncates
     #[verifier::external_body]
-    pub fn create(p: &Path, Tracked(fw): Tracked<&mut FsWorld>) -> (r: io::Result<FsFile>)
+    pub fn create<P: PathLike>(p: &P, Tracked(fw): Tracked<&mut FsWorld>) -> (r: io::Result<FsFile>)
         ensures
             final(fw).no_faults == old(fw).no_faults, final(fw).dirs == old(fw).dirs,
-            final(fw).trace == old(fw).trace.push(FsOp::Create(p@)),
-            r matches Ok(f) ==> f.path() == Some(p@) && f.bytes() == Seq::<u8>::empty()
-                && final(fw).exists == old(fw).exists.insert(p@, true) && final(fw).content == old(fw).content.insert(p@, Seq::<u8>::empty()),
+            final(fw).trace == old(fw).trace.push(FsOp::Create(p.pview())),
+            r matches Ok(f) ==> f.path() == Some(p.pview()) && f.bytes() == Seq::<u8>::empty()
+                && final(fw).exists == old(fw).exists.insert(p.pview(), true) && final(fw).content == old(fw).content.insert(p.pview(), Seq::<u8>::empty()),
             r is Err ==> final(fw).exists == old(fw).exists && final(fw).content == old(fw).content,
     { unimplemented!() }
 }
@@ -102,19 +106,19 @@ pub fn io_copy(src: &mut FsFile, dst: &mut FsFile, Tracked(fw): Tracked<&mut FsW
 pub uninterp spec fn stat_of(fw: &FsWorld, p: Seq<char>) -> Option<Metadata>;
 /// builder::try_stat (lstat; NotFound -> None).  TRUSTED, hash-pinned.
 #[verifier::external_body]
-pub fn try_stat(p: &Path, Tracked(fw): Tracked<&FsWorld>) -> (r: io::Result<Option<Metadata>>)
-    ensures fw.no_faults ==> r is Ok, r matches Ok(m) ==> m == stat_of(fw, p@) && (m is Some) == fw.is_there(p@),
+pub fn try_stat<P: PathLike>(p: &P, Tracked(fw): Tracked<&FsWorld>) -> (r: io::Result<Option<Metadata>>)
+    ensures fw.no_faults ==> r is Ok, r matches Ok(m) ==> m == stat_of(fw, p.pview()) && (m is Some) == fw.is_there(p.pview()),
 { unimplemented!() }
 pub mod helpers {
     use super::*;
     /// helpers::unlink: unlink(2), ENOENT is success.  TRUSTED, hash-pinned.
     #[verifier::external_body]
-    pub fn unlink(p: &Path, Tracked(fw): Tracked<&mut FsWorld>) -> (r: core::result::Result<(), Errno>)
+    pub fn unlink<P: PathLike>(p: &P, Tracked(fw): Tracked<&mut FsWorld>) -> (r: core::result::Result<(), Errno>)
         ensures
             final(fw).no_faults == old(fw).no_faults, final(fw).content == old(fw).content, final(fw).dirs == old(fw).dirs,
-            final(fw).trace == old(fw).trace.push(FsOp::Unlink(p@)),
-            old(fw).no_faults ==> (r is Ok || (old(fw).dirs.contains(p@) && (r == Err::<(), Errno>(Errno::EISDIR) || r == Err::<(), Errno>(Errno::EPERM)))),
-            r is Ok ==> final(fw).exists == old(fw).exists.insert(p@, false),
+            final(fw).trace == old(fw).trace.push(FsOp::Unlink(p.pview())),
+            old(fw).no_faults ==> (r is Ok || (old(fw).dirs.contains(p.pview()) && (r == Err::<(), Errno>(Errno::EISDIR) || r == Err::<(), Errno>(Errno::EPERM)))),
+            r is Ok ==> final(fw).exists == old(fw).exists.insert(p.pview(), false),
             r is Err ==> final(fw).exists == old(fw).exists,
     { unimplemented!() }
 }
@@ -122,12 +126,12 @@ pub mod fs {
     use super::*;
     /// rename(2): atomic replacement of the destination name.  TRUSTED.
     #[verifier::external_body]
-    pub fn rename(src: &Path, dst: &Path, Tracked(fw): Tracked<&mut FsWorld>) -> (r: io::Result<()>)
+    pub fn rename<P: PathLike, Q: PathLike>(src: &P, dst: &Q, Tracked(fw): Tracked<&mut FsWorld>) -> (r: io::Result<()>)
         ensures
             final(fw).no_faults == old(fw).no_faults, final(fw).dirs == old(fw).dirs,
-            final(fw).trace == old(fw).trace.push(FsOp::Rename(src@, dst@)),
-            r is Ok ==> final(fw).exists == old(fw).exists.insert(src@, false).insert(dst@, true),
-            r is Ok && old(fw).content.contains_key(src@) ==> final(fw).content == old(fw).content.insert(dst@, old(fw).content[src@]),
+            final(fw).trace == old(fw).trace.push(FsOp::Rename(src.pview(), dst.pview())),
+            r is Ok ==> final(fw).exists == old(fw).exists.insert(src.pview(), false).insert(dst.pview(), true),
+            r is Ok && old(fw).content.contains_key(src.pview()) ==> final(fw).content == old(fw).content.insert(dst.pview(), old(fw).content[src.pview()]),
             r is Err ==> final(fw).exists == old(fw).exists && final(fw).content == old(fw).content,
     { unimplemented!() }
 }
